@@ -267,11 +267,11 @@ fn orchard_action(version: NoteVersion, nf_old: OrchardNf, recipient: orchard::A
     let (epk, ct): ([u8; 32], Vec<u8>) = match version {
         NoteVersion::V3 => {
             let enc = IronwoodNoteEncryption::new(None, note, [0u8; 512]);
-            (IronwoodDomain::epk_bytes(enc.epk()).0, enc.encrypt_note_plaintext().as_ref()[..52].to_vec())
+            (IronwoodDomain::epk_bytes(enc.epk()).0, enc.encrypt_note_plaintext()[..52].to_vec())
         }
         _ => {
             let enc = OrchardNoteEncryption::new(None, note, [0u8; 512]);
-            (OrchardDomain::epk_bytes(enc.epk()).0, enc.encrypt_note_plaintext().as_ref()[..52].to_vec())
+            (OrchardDomain::epk_bytes(enc.epk()).0, enc.encrypt_note_plaintext()[..52].to_vec())
         }
     };
     (CompactOrchardAction { nullifier: nf_old.to_bytes().to_vec(), cmx: cmx.to_bytes().to_vec(), ephemeral_key: epk.to_vec(), ciphertext: ct }, note)
@@ -405,7 +405,7 @@ impl SimChain {
         let prev = self.hash_at(height - 1).unwrap();
         let mut after = self.frontiers_at(height - 1).unwrap().clone();
         let hash = r.bytes32();
-        let mut cb = CompactBlock { proto_version: 1, height: height as u64, hash: hash.to_vec(), prev_hash: prev.to_vec(), time: 1_700_000_000 + height, ..Default::default() };
+        let mut cb = CompactBlock { height: height as u64, hash: hash.to_vec(), prev_hash: prev.to_vec(), time: 1_700_000_000 + height, ..Default::default() };
         let mut outs = vec![];
         let mut spends = vec![];
         let mut cms: [Vec<[u8; 32]>; 3] = [vec![], vec![], vec![]];
@@ -448,9 +448,15 @@ impl SimChain {
     pub fn fork(&mut self, h: u32) -> Vec<SimBlock> {
         let keep = (h.saturating_sub(self.base_height)) as usize;
         let dropped: Vec<SimBlock> = self.blocks.drain(keep.min(self.blocks.len())..).collect();
+        // A transaction can only be mined again on the new branch if everything it spends survives the
+        // fork: a spend of a note created on the abandoned branch is anchored in abandoned blocks.
+        let gone: std::collections::BTreeSet<(Pool, [u8; 32])> = dropped.iter().flat_map(|b| b.outs.iter().map(|o| (o.pool, o.nf))).collect();
+        self.orphan_pool.retain(|t| !t.nfs.iter().any(|k| gone.contains(k)));
         for b in &dropped {
             for t in &b.txs {
-                self.orphan_pool.push(t.clone());
+                if !t.nfs.iter().any(|k| gone.contains(k)) {
+                    self.orphan_pool.push(t.clone());
+                }
             }
         }
         self.gen = mix(self.gen, h as u64 + 1);
